@@ -10,6 +10,19 @@ Open Scope string_scope.
 Open Scope Z_scope.
 
 
+Section Enc.
+  (* the encoding of chromosome keys: any injective map into values that are not "unbound" *)
+  Variable ec : Z -> val.
+  Hypothesis ec_eq : forall a b, py_eq (ec a) (ec b) = (a =? b).
+  Hypothesis ec_nu : forall a, ec a <> VUnbound.
+  Local Notation enc_ival := (enc_ival_g ec).
+  Local Notation enc_used u := (enc_used_g ec u).
+  Local Notation enc_hu hu := (enc_hu_g ec hu).
+
+  Lemma nu_read (v : val) : v <> VUnbound ->
+    match v with VUnbound => @Err val 6 | _ => Ok v end = Ok v.
+  Proof. destruct v; intro H; try reflexivity. exfalso. apply H. reflexivity. Qed.
+
 (* ---- _find_coord ---- *)
 Definition fc_body : stmt :=
   Eval cbv in match fbody src__find_coord with
@@ -26,14 +39,15 @@ Lemma fc_shape :
 Proof. reflexivity. Qed.
 
 Definition fc_env (cur : val) (c a b : Z) (v : val) : env :=
-  [("cur_hap", cur); ("chrom", VInt c); ("start_coord", VInt a); ("end_coord", VInt b); ("coords", v)].
+  [("cur_hap", cur); ("chrom", ec c); ("start_coord", VInt a); ("end_coord", VInt b); ("coords", v)].
 
 Lemma fc_step cur c a b u fuel :
   exec ft_empty fc_body fuel (fc_env cur c a b (enc_ival u)) =
   if overlaps false c a b u then ORet (VBool true) (fc_env cur c a b (enc_ival u))
   else ONorm (fc_env cur c a b (enc_ival u)).
 Proof.
-  destruct u as [[c' s'] e']. unfold overlaps, fc_env. cbn.
+  destruct u as [[c' s'] e']. unfold overlaps, fc_env, enc_ival_g. cbn.
+  rewrite (nu_read (ec c)) by apply ec_nu. cbn. rewrite ec_eq.
   destruct (c =? c'); [|reflexivity]. cbn.
   destruct (s' <=? b); cbn; [|reflexivity].
   destruct (a <=? e'); reflexivity.
@@ -60,14 +74,23 @@ Proof.
       destruct (rev r) eqn:Er; cbn; [reflexivity|reflexivity].
 Qed.
 
-Theorem TV_find_coord_refines : forall cur c a b fuel,
-  fn__find_coord fuel [enc_used cur; VInt c; VInt a; VInt b] =
+Lemma fc_rest_exec (l : used) c a b v fuel :
+  exec ft_empty fc_rest fuel (fc_env (enc_used l) c a b v) =
+  ORet (VBool false) (fc_env (enc_used (l ++ [(c, a, b)])) c a b v).
+Proof.
+  unfold fc_rest, fc_env. cbn -[last_opt].
+  rewrite (nu_read (ec c)) by apply ec_nu. cbn -[last_opt].
+  rewrite map_app. reflexivity.
+Qed.
+
+Theorem TVg_find_coord_refines : forall cur c a b fuel,
+  fn__find_coord fuel [enc_used cur; ec c; VInt a; VInt b] =
   Ok (VBool (fst (find_coord cur c a b)),
-      [enc_used (snd (find_coord cur c a b)); VInt c; VInt a; VInt b]).
+      [enc_used (snd (find_coord cur c a b)); ec c; VInt a; VInt b]).
 Proof.
   intros cur c a b fuel. unfold fn__find_coord, run_fun. rewrite fc_shape.
   cbn [fparams flocals fbody bind_params app map].
-  change ([("cur_hap", enc_used cur); ("chrom", VInt c); ("start_coord", VInt a);
+  change ([("cur_hap", enc_used cur); ("chrom", ec c); ("start_coord", VInt a);
            ("end_coord", VInt b); ("coords", VUnbound)]) with (fc_env (enc_used cur) c a b VUnbound).
   unfold find_coord, find_coord_with.
   cbn [exec].
@@ -75,14 +98,14 @@ Proof.
     by reflexivity.
   rewrite Hv. cbn [as_seq].
   destruct cur as [|u r].
-  - reflexivity.
+  - change (truthy (VList (map enc_ival []))) with (Some false). cbv iota.
+    rewrite (fc_rest_exec [] c a b VUnbound fuel). reflexivity.
   - change (truthy (VList (map enc_ival (u :: r)))) with (Some true). cbv iota.
     rewrite fc_loop.
     destruct (existsb (overlaps false c a b) (u :: r)).
     + reflexivity.
-    + unfold fc_rest, fc_env. cbn -[last_opt]. cbn [map]. rewrite map_app. reflexivity.
+    + rewrite fc_rest_exec. reflexivity.
 Qed.
-Print Assumptions TV_find_coord_refines.
 
 
 Definition frs_body : stmt :=
@@ -99,7 +122,7 @@ Lemma frs_shape :
 Proof. reflexivity. Qed.
 
 Definition frs_env (S D : val) (hu : list used) (c a b : Z) (smp hap t1 : val) : env :=
-  [("samples", S); ("sample_dict", D); ("haps_used", enc_hu hu); ("chrom", VInt c);
+  [("samples", S); ("sample_dict", D); ("haps_used", enc_hu hu); ("chrom", ec c);
    ("start_coord", VInt a); ("end_coord", VInt b); ("sample", smp); ("haplotype", hap); ("_t1", t1)].
 
 Lemma set_nth_enc (hu : list used) i cur cur' : nthZ hu i = Some cur ->
@@ -151,16 +174,21 @@ Lemma frs_inner_step S dom hu c a b s h t0 fuel :
   frs_inner_out hu s h c a b S (iddict dom).
 Proof.
   intros Hs Hh Hdom. unfold frs_inner, frs_env, frs_inner_out, try_hap.
-  cbn -[index_sem set_index fn__find_coord find_coord_with].
+  cbn -[index_sem set_index fn__find_coord find_coord_with];
+    rewrite ?(nu_read (ec c)) by apply ec_nu; cbn -[index_sem set_index fn__find_coord find_coord_with].
   rewrite index_iddict, Hdom.
-  cbn -[index_sem set_index fn__find_coord find_coord_with].
+  cbn -[index_sem set_index fn__find_coord find_coord_with];
+    rewrite ?(nu_read (ec c)) by apply ec_nu; cbn -[index_sem set_index fn__find_coord find_coord_with].
   rewrite index_hu by lia.
   destruct (nthZ hu (s * 2 + h)) as [cur|] eqn:E; rewrite ?E; [|reflexivity].
-  cbn -[index_sem set_index fn__find_coord find_coord_with].
-  rewrite TV_find_coord_refines. fold (find_coord cur c a b).
-  cbn -[index_sem set_index fn__find_coord find_coord_with find_coord].
+  cbn -[index_sem set_index fn__find_coord find_coord_with];
+    rewrite ?(nu_read (ec c)) by apply ec_nu; cbn -[index_sem set_index fn__find_coord find_coord_with].
+  rewrite TVg_find_coord_refines. fold (find_coord cur c a b).
+  cbn -[index_sem set_index fn__find_coord find_coord_with find_coord];
+    rewrite ?(nu_read (ec c)) by apply ec_nu; cbn -[index_sem set_index fn__find_coord find_coord_with find_coord].
   rewrite (set_nth_enc hu (s * 2 + h) cur _ E).
-  cbn -[index_sem set_index fn__find_coord find_coord_with find_coord].
+  cbn -[index_sem set_index fn__find_coord find_coord_with find_coord];
+    rewrite ?(nu_read (ec c)) by apply ec_nu; cbn -[index_sem set_index fn__find_coord find_coord_with find_coord].
   unfold find_coord, find_coord_with.
   destruct (existsb (overlaps false c a b) cur); cbn [fst snd truthy].
   - rewrite (set_nth_same hu (s * 2 + h) cur E). reflexivity.
@@ -172,7 +200,8 @@ Lemma frs_inner_key S dom hu c a b s h t0 fuel :
   exec (ft_0 fuel) frs_inner fuel (frs_env S (iddict dom) hu c a b (VInt s) (VInt h) t0) = OErr 3.
 Proof.
   intros Hdom. unfold frs_inner, frs_env.
-  cbn -[index_sem set_index fn__find_coord find_coord_with].
+  cbn -[index_sem set_index fn__find_coord find_coord_with];
+    rewrite ?(nu_read (ec c)) by apply ec_nu; cbn -[index_sem set_index fn__find_coord find_coord_with].
   rewrite index_iddict, Hdom. reflexivity.
 Qed.
 
@@ -237,7 +266,7 @@ Definition frs_obs (o : outcome) : res (val * list val) :=
 
 Definition frs_expected (S D : val) (c a b : Z) (m : res (Z * Z) * list used) : res (val * list val) :=
   match m with
-  | (Ok (s, h), hu') => Ok (VTuple [VInt s; VInt h], [S; D; enc_hu hu'; VInt c; VInt a; VInt b])
+  | (Ok (s, h), hu') => Ok (VTuple [VInt s; VInt h], [S; D; enc_hu hu'; ec c; VInt a; VInt b])
   | (Err k, _) => Err k
   end.
 
@@ -267,9 +296,9 @@ Proof.
       apply IH. exact Hr.
 Qed.
 
-Theorem TV_find_random_sample_refines : forall dom ns hu c a b fuel,
+Theorem TVg_find_random_sample_refines : forall dom ns hu c a b fuel,
   names_ok dom ns ->
-  fn__find_random_sample fuel [VList (map VInt ns); iddict dom; enc_hu hu; VInt c; VInt a; VInt b] =
+  fn__find_random_sample fuel [VList (map VInt ns); iddict dom; enc_hu hu; ec c; VInt a; VInt b] =
   frs_expected (VList (map VInt ns)) (iddict dom) c a b (find_random_sample ns hu c a b).
 Proof.
   intros dom ns hu c a b fuel Hok. unfold fn__find_random_sample, run_fun. rewrite frs_shape.
@@ -278,6 +307,25 @@ Proof.
   cbn [exec eval read_var lookup String.eqb Ascii.eqb Bool.eqb as_seq]. unfold frs_env.
   destruct (for_loop _ _ _ _); reflexivity.
 Qed.
+
+
+End Enc.
+
+Lemma VInt_eq : forall a b, py_eq (VInt a) (VInt b) = (a =? b). Proof. reflexivity. Qed.
+Lemma VInt_nu : forall a, VInt a <> VUnbound. Proof. discriminate. Qed.
+
+Theorem TV_find_coord_refines : forall cur c a b fuel,
+  fn__find_coord fuel [enc_used cur; VInt c; VInt a; VInt b] =
+  Ok (VBool (fst (find_coord cur c a b)),
+      [enc_used (snd (find_coord cur c a b)); VInt c; VInt a; VInt b]).
+Proof. exact (TVg_find_coord_refines VInt VInt_eq VInt_nu). Qed.
+Print Assumptions TV_find_coord_refines.
+
+Theorem TV_find_random_sample_refines : forall dom ns hu c a b fuel,
+  names_ok dom ns ->
+  fn__find_random_sample fuel [VList (map VInt ns); iddict dom; enc_hu hu; VInt c; VInt a; VInt b] =
+  frs_expected VInt (VList (map VInt ns)) (iddict dom) c a b (find_random_sample ns hu c a b).
+Proof. exact (TVg_find_random_sample_refines VInt VInt_eq VInt_nu). Qed.
 Print Assumptions TV_find_random_sample_refines.
 
 (* ---- the property, stated about the code as translated ---------------------------- *)
